@@ -187,19 +187,19 @@ CLAIMED = {
          "objective model (C14_constraint_step carries it through the constraint methods).",
     technique="Coq proof (exchange argument over penalties, composed with the C01 and C02 theorems) + model/implementation correspondence", ref="§5 C08"),
  "C11": dict(
-    text="Coq theorems about the Gallina transcription of both C kernels and of the Python front end's packaging: "
-         "C11_quso_kernel / C11_puso_kernel (a call returns exactly n results; every state has one entry in {+1,-1} per spin; "
-         "the reported value equals the model's energy at the returned state -- for every schedule, initial state, visiting "
-         "order, seed and table of exp values), C11_value_with_offset (kernel value + offset = the enumerated model at the "
-         "state), C11_package (one labelled state per result through the reverse mapping), C11_arrays (the arrays built from "
-         "a valid quadratic model are well formed). Tied to /repo by bit-exact comparison of whole calls (PCG32 on N, "
-         "exact rational energies, exp decided against 60-digit enclosures) of the four annealers built from /repo's C "
-         "sources, on dict / labelled / Matrix inputs, plus an implementation-side oracle of the property.",
+    text="Coq theorems C11_anneal_spin / C11_anneal_bool: a whole call of anneal_quso / anneal_puso / anneal_qubo / anneal_pubo "
+         "on any accepted source (plain dict, labelled kinds, Matrix kinds; model objects satisfying the C14 invariant and "
+         "canonical storage) returns exactly num_anneals results, each state lists every variable of the model once "
+         "(0..max_index for Matrix kinds, the mapping's labels otherwise) with a value in {1,-1} / {0,1}, and the reported "
+         "value is the source model, offset included, at that state -- for every schedule, exp table, initial state, visiting "
+         "order and seed; C11_none_*: none if num_anneals <= 0. They rest on the kernel theorems C11_quso_kernel / "
+         "C11_puso_kernel (Gallina transcriptions of both C kernels), C11_value_with_offset, C11_package, C11_arrays, "
+         "C11_prepared_*. Tied to /repo by bit-exact comparison of whole calls (PCG32 on N, exact rational energies, exp "
+         "decided against 60-digit enclosures) of the four annealers built from /repo's C sources, on dict / labelled / "
+         "Matrix inputs, plus an implementation-side oracle of the property.",
     note="Trusted: Coq kernel + vm_compute; no axioms; hand-written model of _anneal.py and of the C kernels; mpmath enclosures "
-         "of exp; gcc build of the extension from /repo sources; harness. The kernel theorems assume a valid prepared model "
-         "(qvalid, NoDup); C11_prepared_matrix / C11_prepared_labelled prove that for Matrix and labelled quadratic inputs "
-         "from the C14 invariant and canonical storage, and C11_anneal_quso_matrix is the end-to-end statement for "
-         "anneal_quso on a QUSOMatrix; the other three entry points are covered at kernel level + correspondence. "
+         "of exp; gcc build of the extension from /repo sources; harness. The whole-call theorems compose the kernel "
+         "theorems with the C04 conversion / enumeration theorems and the C14 invariant (Proofs/AnnealFront.v). "
          "res.best is C13's theorem.",
     technique="Coq proof (invariants over the kernel loops) + bit-exact model/implementation correspondence", ref="§5 C11"),
  "C12": dict(
